@@ -893,10 +893,11 @@ class Emitter:
                 o.append('  %s = %s %s %s;' % (d, a, cop, b)); return
             bits = r.bits
             fl = I['flags']
-            if False and op == 'sub' and bits == 64 and I['a'][0] == 'local' and I['b'][0] == 'local':
+            if op == 'sub' and bits == 64 and I['a'][0] == 'local' and I['b'][0] == 'local':
+                # pointer difference: keep it foldable for CBMC when both pointers are in the same object
                 da = s.defs.get(I['a'][1]); db = s.defs.get(I['b'][1])
                 if da and db and da['op'] == 'ptrtoint' and db['op'] == 'ptrtoint':
-                    o.append('  %s = (uint64_t)(int64_t)(%s - %s);' % (d, s.val(da['a']), s.val(db['a'])))
+                    o.append('  %s = VERIF_PTRDIFF(%s, %s);' % (d, s.val(da['a']), s.val(db['a'])))
                     return
             if op in ('add', 'sub', 'mul'):
                 cop = {'add': '+', 'sub': '-', 'mul': '*'}[op]
@@ -941,7 +942,7 @@ class Emitter:
                 if pred in ('eq', 'ne'):
                     o.append('  %s = (%s %s %s);' % (d, a, cop, b))
                 else:
-                    o.append('  %s = ((uint64_t)%s %s (uint64_t)%s);' % (d, a, cop, b))
+                    o.append('  %s = VERIF_PTRCMP(%s, %s, %s);' % (d, a, cop, b))
                 return
             bits = r.bits
             if pred[0] == 's':
@@ -1329,6 +1330,13 @@ uint16_t nondet_i16(void) { return nondet_u16(); }
 uint32_t nondet_i32(void) { return nondet_u32(); }
 uint64_t nondet_i64(void) { return nondet_u64(); }
 uint8_t  nondet_bool(void) { return nondet_u8() & 1; }
+#ifdef __CPROVER__
+#define VERIF_PTRDIFF(a, b) (__CPROVER_same_object((a), (b)) ? (uint64_t)((int64_t)__CPROVER_POINTER_OFFSET(a) - (int64_t)__CPROVER_POINTER_OFFSET(b)) : ((uint64_t)(a) - (uint64_t)(b)))
+#define VERIF_PTRCMP(a, op, b) (__CPROVER_same_object((a), (b)) ? ((uint64_t)__CPROVER_POINTER_OFFSET(a) op (uint64_t)__CPROVER_POINTER_OFFSET(b)) : ((uint64_t)(a) op (uint64_t)(b)))
+#else
+#define VERIF_PTRDIFF(a, b) ((uint64_t)(a) - (uint64_t)(b))
+#define VERIF_PTRCMP(a, op, b) ((uint64_t)(a) op (uint64_t)(b))
+#endif
 static inline float bc_i2f(uint32_t x) { float f; memcpy(&f, &x, 4); return f; }
 static inline uint32_t bc_f2i(float f) { uint32_t x; memcpy(&x, &f, 4); return x; }
 static inline double bc_i2d(uint64_t x) { double f; memcpy(&f, &x, 8); return f; }
@@ -1349,7 +1357,7 @@ static inline uint64_t verif_fshr64(uint64_t a, uint64_t b, uint64_t c) { c &= 6
 /* ---- allocation model (DESIGN 2.2): operator new returns a fixed-size chunk; the requested size is kept in a
    shadow table indexed by CBMC's object number and every instrumented access is checked against it. ---- */
 #ifndef VERIF_MAX_ALLOC
-#define VERIF_MAX_ALLOC 256
+#define VERIF_MAX_ALLOC 32
 #endif
 #ifndef VERIF_OBJ_TABLE
 #define VERIF_OBJ_TABLE 1024
